@@ -466,9 +466,24 @@ def climate(chk: Check, repo: Repo) -> None:
     chk.unit(ss); chk.unit(tt); chk.unit(bt)
     cfg = CFG(ss.node)
     rd = [n for n in cfg.nodes if n.kind == "stmt" and isinstance(n.ast, ast.Assign) and ast.unparse(n.ast.value) == "self.base_temperature"]
-    wr = [n for n in cfg.nodes if n.kind == "stmt" and n.ast is not None and any(isinstance(x, ast.Call) and call_name(x) == "self._setpoint_shift.set" for x in ast.walk(n.ast))]
+    def sends(rv: str) -> list:
+        return [n for n in cfg.nodes if n.kind == "stmt" and n.ast is not None and any(isinstance(x, ast.Call) and call_name(x) in (f"self.{rv}.set", f"self.{rv}.send_raw") for x in ast.walk(n.ast))]
+
+    def value_sent(node, rv: str) -> ast.AST:
+        """the value a send of remote value `rv` carries: the argument of set(), or - for send_raw(payload) - the argument
+        of the `self.<rv>.to_knx(..)` call the payload was built with (reaching definitions)"""
+        c = [x for x in ast.walk(node.ast) if isinstance(x, ast.Call) and call_name(x) in (f"self.{rv}.set", f"self.{rv}.send_raw")][0]
+        if len(c.args) != 1:
+            raise AnalysisError(f"Climate: {call_name(c)} call shape")
+        sym = cfg.symbolic(node.id, c.args[0])
+        if call_name(c).endswith(".set"):
+            return sym
+        if isinstance(sym, ast.Call) and call_name(sym) == f"self.{rv}.to_knx" and len(sym.args) == 1:
+            return sym.args[0]
+        raise AnalysisError(f"Climate: the payload handed to {call_name(c)} is not built by self.{rv}.to_knx(..): {ast.unparse(sym)}")
+    wr = sends("_setpoint_shift")
     ok = len(rd) == 1 and len(wr) == 1 and cfg.dominates(rd[0].id, wr[0].id)
-    chk.ob("base-temperature-read-before-the-shift-changes", ss.site(), ok, "set_setpoint_shift reads base_temperature into a local before calling _setpoint_shift.set", key="climate|order")
+    chk.ob("base-temperature-read-before-the-shift-changes", ss.site(), ok, "set_setpoint_shift reads base_temperature into a local before sending the shift", key="climate|order")
     # base + (target - base) == target
     base_ret = [n for n in walk_local(bt.node) if isinstance(n, ast.Return) and n.value is not None and not (isinstance(n.value, ast.Constant) and n.value.value is None)]
     # offset handed to set_setpoint_shift as a function of the requested target (through a local or directly)
@@ -480,15 +495,12 @@ def climate(chk: Check, repo: Repo) -> None:
             delta += [n.value for n in walk_local(tt.node) if isinstance(n, ast.Assign) and len(n.targets) == 1 and isinstance(n.targets[0], ast.Name) and n.targets[0].id == a.id]
         else:
             delta.append(a)
-    newt = [n for n in cfg.nodes if n.kind == "stmt" and n.ast is not None and any(isinstance(x, ast.Call) and call_name(x) == "self.target_temperature.set" and len(x.args) == 1 for x in ast.walk(n.ast))]
+    newt = sends("target_temperature")
     if len(base_ret) != 1 or len(delta) != 1 or len(newt) != 1 or len(wr) != 1 or len(rd) != 1:
         raise AnalysisError("Climate: setpoint arithmetic not found")
     # the value handed to the shift datapoint, as a function of the requested offset (reaching definitions, not names)
     off_param = ss.node.args.args[1].arg
-    shift_call = [x for x in ast.walk(wr[0].ast) if isinstance(x, ast.Call) and call_name(x) == "self._setpoint_shift.set"][0]
-    if len(shift_call.args) != 1:
-        raise AnalysisError("Climate: _setpoint_shift.set call shape")
-    sent = cfg.symbolic(wr[0].id, shift_call.args[0])
+    sent = value_sent(wr[0], "_setpoint_shift")
     clampers = clamp_methods(chk, repo, cm, "Climate")
     def is_requested(e: ast.AST) -> bool:
         if isinstance(e, ast.Name) and e.id == off_param:
@@ -500,8 +512,7 @@ def climate(chk: Check, repo: Repo) -> None:
     chk.ob("shift-sent-is-the-requested-offset", ss.site(), is_requested(sent), f"_setpoint_shift.set receives {ast.unparse(sent)} for the requested `{off_param}` (allowed: the offset itself, or the offset clamped by {sorted(clampers)})", key="climate|sent")
     a_d, b_d = affine(delta[0], tt.node.args.args[1].arg, {})  # offset as a function of the requested target
     # the broadcast target as a function of the value that was sent as the shift
-    tcall = [x for x in ast.walk(newt[0].ast) if isinstance(x, ast.Call) and call_name(x) == "self.target_temperature.set"][0]
-    target_sym = cfg.symbolic(newt[0].id, tcall.args[0])
+    target_sym = value_sent(newt[0], "target_temperature")
     sent_dump = ast.dump(sent)
 
     class _Sub(ast.NodeTransformer):
